@@ -352,7 +352,7 @@ func (c *checker) runSpace(s *vroute.Space, lg *leg, opts vroute.PacketOpts, tra
 		if c.mism.Load() > maxRecorded {
 			return
 		}
-		if c.r.OverBudget(20*time.Minute, 120*time.Minute) { // runaway guard only (a heavily loaded host), never an oracle
+		if c.r.OverBudget(6*time.Minute, 60*time.Minute) { // runaway guard only (a heavily loaded host), never an oracle
 			c.r.CapHit("internal time budget reached inside space " + name)
 			return
 		}
